@@ -7,12 +7,27 @@ HARNESSES = {
     "tstamp": dict(src=["harness/h_tstamp.cpp"], flavour="asan"),
     "tables": dict(src=["harness/h_tables.cpp"], flavour="asan"),
     "writers": dict(src=["harness/h_writers.cpp"], flavour="asan"),
+    "tools": dict(src=["harness/h_tools.cpp"], flavour="asan"),
+    "mutread": dict(src=["harness/h_mutread.cpp"], flavour="asan"),
+    "fuzz_reader": dict(src=["harness/fuzz_reader.cpp"], flavour="asan", ldflags=["-fsanitize=fuzzer"], libs=[]),
+    "fuzz_decoder": dict(src=["harness/fuzz_decoder.cpp"], flavour="asan", ldflags=["-fsanitize=fuzzer"], libs=[]),
+    "cdns-merge": dict(src=["REPO/src/bin/cdns_merge.cpp"], flavour="asan", libs=[]),
+    "cdns-itemcount": dict(src=["REPO/src/bin/cdns_itemcount.cpp"], flavour="asan", libs=[]),
+    "cdns-items": dict(src=["REPO/src/bin/cdns_items.cpp"], flavour="asan", libs=[]),
+    "cdns-blocks": dict(src=["REPO/src/bin/cdns_blocks.cpp"], flavour="asan", libs=[]),
+    "cdns-preamble": dict(src=["REPO/src/bin/cdns_preamble.cpp"], flavour="asan", libs=[]),
     "mt": dict(src=["harness/h_mt.cpp"], flavour="tsan", libs=["-lrapidcheck", "-lpthread"]),
     "crash": dict(src=["harness/h_crash.cpp"], flavour="asan", ldflags=["-rdynamic"], libs=["-lrapidcheck", "-ldl"]),
 }
 
 ENGINE_TEXT = {
     "codec": "rapidcheck + exhaustive choice-tree enumeration on CdnsEncoder/CdnsDecoder, ASan+UBSan",
+    "tools": "rapidcheck inputs for the real CLI tools (sanitizer builds of src/bin/*.cpp) run as subprocesses",
+    "mutread": "rapidcheck structure-aware mutation of valid files into CdnsReader / CdnsDecoder, ASan+UBSan, allocation cap",
+    "fuzz_reader": "libFuzzer target: bytes -> CdnsReader, accessors, renderers",
+    "fuzz_decoder": "libFuzzer target: bytes -> CdnsDecoder operation program",
+    "cdns-merge": "tool under test (sanitizer build)", "cdns-itemcount": "tool under test (sanitizer build)", "cdns-items": "tool under test (sanitizer build)",
+    "cdns-blocks": "tool under test (sanitizer build)", "cdns-preamble": "tool under test (sanitizer build)",
     "mt": "generated thread workloads under ThreadSanitizer, sequential vs concurrent differential",
     "crash": "rapidcheck scenarios x exhaustive crash/fault points; write/writev/rename interposed in the executable; fork per crash point; ASan+UBSan",
     "writers": "rapidcheck + enumerated large-chunk classes on CborOutputWriter/Gzip/Xz writers, ASan+UBSan",
@@ -266,5 +281,45 @@ PROPS = {
         technique="property-based testing: generated thread workloads, TSan race detection + sequential/concurrent differential",
         assumptions=["outputs of a workload are deterministic when run alone (checked: the sequential reference is compared with the concurrent run)"],
         jobs=[dict(harness="mt", prop="c20_threads", cases=(160, 6000), size=(20, 40), args=["--shrink-budget", "60"])],
+    ),
+
+    "C03": dict(
+        rule="(1) valid file from the exporter -> generated plan of 1..4 structure-aware edits on the CBOR tree (declared length/count -> boundary values up to 2^64-1, integers -> boundaries, "
+             "index members just past their table, major type swapped, additional info 28..31, subtree replaced by a nesting chain of depth up to 2000 (thorough 200000; decoder streams up to 10^6), subtree "
+             "duplicated/deleted/moved, unknown members, malformed domain names / addresses of length 0..20, ticks-per-second / earliest-time / offsets -> 0, 2^63, 2^64-1, huge declared string length / array count "
+             "on short content) + truncation / byte flips -> CdnsReader, every block, read_generic_qr/aec/mm, string() of preamble, blocks, items, table entries and generic records, block copies. "
+             "(2) CdnsDecoder operation programs (12 operations) over mutated files, generated item streams with byte edits, nesting chains and arbitrary CBOR-looking bytes. (3) the five command line tools as "
+             "real subprocesses on mutated files (cdns-merge also with a second, valid input). (4) libFuzzer campaigns on the reader and the decoder from an empty and from a generator-made corpus. "
+             "Oracle: no ASan/UBSan/_GLIBCXX_ASSERTIONS report, no stack overflow on the default 8 MiB stack, no single allocation above 64 MiB (inputs <= 1 MiB), only std::exception-derived errors, tools "
+             "exit with status 0/1 and no signal. Non-trivial: input differs from its seed and processing got past the file header, or the decoder program executed >= 3 operations; fuzzing: inputs kept by "
+             "libFuzzer for new coverage.",
+        level_text="structure-aware mutation search plus coverage-guided fuzzing under ASan+UBSan with an allocation cap; tools run as subprocesses",
+        level_note="time/memory proportionality is checked through the allocation cap, the stack limit and a conservative hang rule (timeouts are inconclusive); uninitialised reads only via semantic oracles",
+        technique="property-based testing (structure-aware mutation, rapidcheck) + libFuzzer coverage-guided fuzzing, sanitizers as oracle",
+        assumptions=["std::bad_alloc / std::length_error are accepted failures unless the allocation cap fired"],
+        extra_harnesses=["cdns-merge", "cdns-itemcount", "cdns-items", "cdns-blocks", "cdns-preamble", "mutread", "fuzz_reader", "fuzz_decoder"],
+        jobs=[
+            dict(harness="mutread", prop="c03_reader", cases=(64000, 2400000), size=(40, 100), env=dict(ASAN_OPTIONS="max_allocation_size_mb=64")),
+            dict(harness="mutread", prop="c03_decoder", cases=(64000, 2400000), size=(40, 100), env=dict(ASAN_OPTIONS="max_allocation_size_mb=64")),
+            dict(harness="tools", prop="c03_tools", cases=(1600, 48000), size=(30, 60)),
+            dict(kind="py", func="fuzz", targets=["fuzz_reader", "fuzz_decoder"], runs=(150000, 0), max_total_time=(0, 600), procs=(2, 4), max_len=16384),
+        ],
+    ),
+    "C18": dict(
+        rule="tuples of 1..5 inputs for cdns-merge: files written by the exporter from generated content (own preamble, tick rate, hints, several sets, statistics, AEC, MM), re-encoded with a chosen version "
+             "(default / other major / other minor / other private / private absent), optionally with an item-less block inserted, truncated at a random offset behind the header, the same path twice, an empty file, "
+             "a missing path, random bytes. The real tool (sanitizer build) runs as a subprocess. Oracle: R = inputs the independent parser reads as C-DNS with the first readable input's version (truncated: wholly "
+             "contained blocks); the output must validate and its block sequence must equal the concatenation of R's non-empty blocks in argument order: records, AEC, statistics equal (absolute times) and the "
+             "resolved parameter set equal to the source's; nothing expected => no data; exit status 0. cdns-itemcount with {none,-b,-p,-b -p}: numbers on stdout equal the independent parse. "
+             "Non-trivial: >=2 contributing inputs with different parameters, or a rejected/truncated member next to a contributing one.",
+        level_text="generated input tuples through the real tools as subprocesses; expected output computed from an independent parse of the inputs",
+        level_note="wording and number of diagnostics are not part of the guarantee and not checked; the other inspection tools are covered for safety by C03",
+        technique="property-based testing: differential testing of CLI tools against an independent reference interpretation",
+        assumptions=[],
+        extra_harnesses=["cdns-merge", "cdns-itemcount"],
+        jobs=[
+            dict(harness="tools", prop="c18_merge", cases=(4800, 160000), size=(30, 60)),
+            dict(harness="tools", prop="c18_itemcount", cases=(2400, 80000), size=(20, 60)),
+        ],
     ),
 }
